@@ -39,12 +39,18 @@ func TestNoSideEffectsThroughCLI(t *testing.T) {
 		c := &calls{}
 		vcs := &recVCS{c: c, files: map[string][]byte{}}
 		signer := &recSigner{c: c}
-		comp := &rcmd.PartialComponent{FInitContext: func(ctx context.Context) (context.Context, error) {
+		// Keys come from the application's Global component (it runs before the endorse command's own
+		// initialisation, as the AppComponents documentation intends) or from the Endorse component.
+		keysFirst := rapid.Bool().Draw(t, "keysInGlobal")
+		keysComp := &rcmd.PartialComponent{FInitContext: func(ctx context.Context) (context.Context, error) {
 			kc, err := keys.FromContext(ctx)
 			if err != nil {
 				return nil, err
 			}
 			kc.CA, kc.Signer, kc.Manager = &recCA{c}, signer, &recManager{c}
+			return ctx, nil
+		}}
+		vcsComp := &rcmd.PartialComponent{FInitContext: func(ctx context.Context) (context.Context, error) {
 			ec, err := endorse.FromContext(ctx)
 			if err != nil {
 				return nil, err
@@ -52,6 +58,10 @@ func TestNoSideEffectsThroughCLI(t *testing.T) {
 			ec.VCS = vcs
 			return ctx, nil
 		}}
+		components := &rcmd.AppComponents{Endorse: rcmd.Compose(keysComp, vcsComp), SignatureRandom: zeroReader{}}
+		if keysFirst {
+			components = &rcmd.AppComponents{Global: keysComp, Endorse: vcsComp, SignatureRandom: zeroReader{}}
+		}
 		args := []string{"endorse", "--quiet", "--uefi", fw, "--out_dir", "out", "--timestamp", "2025-03-03T04:05:06Z", "--clspec=5"}
 		if s.Sev {
 			args = append(args, "--add_snp", fmt.Sprintf("--snp_launch_vmsas=%d", s.Vmsas))
@@ -79,7 +89,7 @@ func TestNoSideEffectsThroughCLI(t *testing.T) {
 		if s.Overwrite {
 			args = append(args, "--overwrite")
 		}
-		app := rcmd.MakeApp(context.Background(), &rcmd.AppComponents{Endorse: comp, SignatureRandom: zeroReader{}})
+		app := rcmd.MakeApp(context.Background(), components)
 		app.SetArgs(args)
 		app.SilenceUsage, app.SilenceErrors = true, true
 		var runErr error
